@@ -1008,20 +1008,20 @@ theorem validateW3C_ok_iff (d : NDoc) : validateW3C allOn d = .ok () ↔ W3COk d
     rw [h1, h2, h3, a4, a6, h5]
     rfl
 
-/-- **Well-formed per DID-core and the Nuts method rules** (declarative; what the property text lists) -/
-def WellFormedNuts (thumb : Key → String) (d : NDoc) : Prop :=
+/-- well-formed per DID-core and the Nuts method rules, for a document without null entries -/
+def WellFormedCore (thumb : Key → String) (d : NDoc) : Prop :=
   W3COk d ∧
   (∀ v ∈ d.vms, v.frag ≠ "" ∧ v.pfx = d.id ∧ ∃ k, v.key = .key k ∧ thumb k = v.frag) ∧ (d.vms.map (·.id)).Nodup ∧
   (∀ s ∈ d.services, s.frag ≠ "" ∧ s.pfx = d.id) ∧ (d.services.map (·.id)).Nodup ∧ (d.services.map (·.type)).Nodup
 
-theorem validate_ok_iff (thumb : Key → String) (ne : Bool) (d : NDoc) :
-    validate thumb ne [.w3c, .nutsVM, .nutsService] d = .ok () ↔ WellFormedNuts thumb d := by
+theorem validate3_ok_iff (thumb : Key → String) (ne : Bool) (d : NDoc) :
+    validate thumb ne [.w3c, .nutsVM, .nutsService] d = .ok () ↔ WellFormedCore thumb d := by
   unfold validate validateList validateList validateList validateList runValidator
   have hw := validateW3C_ok_iff d
   have hv := validateVMs_ok_iff thumb ne d.id d.vms []
   have hs := validateSvcs_ok_iff d.id d.services [] []
   unfold allOn at hw hv hs
-  unfold WellFormedNuts
+  unfold WellFormedCore
   cases h1 : validateW3C (fun _ => true) d with
   | err e => simp only; rw [h1] at hw; constructor
              · intro h; cases h
@@ -1056,5 +1056,17 @@ theorem validate_ok_iff (thumb : Key → String) (ne : Bool) (d : NDoc) :
         · intro _; exact ⟨hw', hv'.1, hv'.2.1, hs'.1, hs'.2.1, hs'.2.2.2.1⟩
         · intro _; trivial
 
+
+/-- **Well-formed per DID-core and the Nuts method rules** (declarative; what the property text lists): no null
+    entries, and the core rules -/
+def WellFormedNuts (thumb : Key → String) (d : NDoc) : Prop :=
+  (d.vmNull = false ∧ d.relNull = false) ∧ WellFormedCore thumb d
+
+theorem validate_ok_iff (thumb : Key → String) (ne : Bool) (d : NDoc) :
+    validate thumb ne [.nilEntry, .w3c, .nutsVM, .nutsService] d = .ok () ↔ WellFormedNuts thumb d := by
+  have h3 := validate3_ok_iff thumb ne d
+  unfold validate at h3 ⊢
+  unfold validateList runValidator validateNil WellFormedNuts
+  cases hv : d.vmNull <;> cases hr : d.relNull <;> simp [h3]
 
 end Nuts.C09
